@@ -4,6 +4,7 @@ package main
 // stores and writes the trace: every op echoed as `op …` followed by what the implementation did.
 
 import (
+	"sort"
 	"sync/atomic"
 	"berty.tech/go-orbit-db/address"
 	"context"
@@ -315,6 +316,47 @@ func (w *World) execOp(toks []string) error {
 		p := atoi(toks[1])
 		op, err := w.stores[p].(iface.DocumentStore).Delete(ctx, string(unhx(toks[2])))
 		w.ack(p, op, err)
+	case "doctorn":
+		// doctorn p : a batch put of two documents lands WHILE a Query is reading (the caller's filter is
+		// the meeting point: on its first call it lets a concurrent writer run its PutAll to the end): the
+		// Query must return a state the replica held — both documents of the old batch or both of the new
+		p := atoi(toks[1])
+		d := w.stores[p].(iface.DocumentStore)
+		mk := func(gen string) []interface{} {
+			return []interface{}{docOf([]byte("torn-a"), []byte(gen)), docOf([]byte("torn-b"), []byte(gen))}
+		}
+		op, err := d.PutAll(ctx, mk("g1"))
+		w.ack(p, op, err)
+		first := true
+		var op2 operation.Operation
+		var err2 error
+		res, qerr := d.Query(ctx, func(doc interface{}) (bool, error) {
+			if first {
+				first = false
+				done := make(chan struct{})
+				go func() { op2, err2 = d.PutAll(ctx, mk("g2")); close(done) }()
+				select {
+				case <-done:
+				case <-time.After(2 * time.Second):
+				}
+			}
+			m, _ := doc.(map[string]interface{})
+			id, _ := m["_id"].(string)
+			return id == "torn-a" || id == "torn-b", nil
+		})
+		w.ack(p, op2, err2)
+		gens := map[string]bool{}
+		for _, r := range res {
+			if m, ok := r.(map[string]interface{}); ok {
+				gens[fmt.Sprint(m["v"])] = true
+			}
+		}
+		var gs []string
+		for g := range gens {
+			gs = append(gs, g)
+		}
+		sort.Strings(gs)
+		w.printf("doctorn %d err=%v n=%d gens=%s\n", p, qerr != nil, len(res), joinOrDash(gs))
 	case "docputall", "docputbatch":
 		p := atoi(toks[1])
 		var docs []interface{}
